@@ -858,3 +858,341 @@ Proof.
   intros Hw. unfold wf in Hw. apply andb_true_iff in Hw as [_ Hw].
   unfold ok, model, run. apply ok_run_from; [exact Hw | apply Inv_init].
 Qed.
+
+(* ================================================================== every source frame exactly once *)
+Definition all_frames (s : st) : list wframe := flat_map s_frames (closed s) ++ flat_map s_frames (curl s).
+Definition vids (l : list wframe) : list frame := flat_map w_src (filter (fun w => w_pid w =? VPID) l).
+Definition auds (l : list wframe) : list frame := flat_map w_src (filter (fun w => w_pid w =? APID) l).
+Definition cache_src (s : st) : list frame := match cache s with Some a => a_src a | None => [] end.
+Definition cache_frames (s : st) : list wframe := match cache s with Some a => [cache_frame a] | None => [] end.
+Definition nonempty (f : frame) : bool := match f_pay f with [] => false | _ => true end.
+Definition video_in (f : frame) : bool := negb (is_audio (f_kind f)) && nonempty f.
+Definition audio_in (f : frame) : bool := is_audio (f_kind f) && nonempty f.
+
+Lemma vids_app a b : vids (a ++ b) = vids a ++ vids b.
+Proof. unfold vids. rewrite filter_app, flat_map_app. reflexivity. Qed.
+Lemma auds_app a b : auds (a ++ b) = auds a ++ auds b.
+Proof. unfold auds. rewrite filter_app, flat_map_app. reflexivity. Qed.
+Lemma vids_cache_frames s : vids (cache_frames s) = [].
+Proof. unfold cache_frames. destruct (cache s); reflexivity. Qed.
+Lemma auds_cache_frames s : auds (cache_frames s) = cache_src s.
+Proof. unfold cache_frames, cache_src. destruct (cache s); cbn; [apply app_nil_r | reflexivity]. Qed.
+
+Lemma cache_src_eq s1 s2 : cache s1 = cache s2 -> cache_src s1 = cache_src s2.
+Proof. unfold cache_src. intros ->. reflexivity. Qed.
+Lemma cache_src_none s : cache s = None -> cache_src s = [].
+Proof. unfold cache_src. intros ->. reflexivity. Qed.
+
+Lemma flush_frame_acct w s g : cur s = Some g ->
+  all_frames (flush_frame w s) = all_frames s ++ [w] /\ cache (flush_frame w s) = cache s /\
+  dropped (flush_frame w s) = dropped s.
+Proof.
+  intros Hc. unfold flush_frame, all_frames, curl. rewrite Hc. cbn [set_cur closed cur cache dropped flat_map seg_write s_frames].
+  rewrite !app_nil_r, app_assoc. repeat split; reflexivity.
+Qed.
+
+Lemma flush_cache_acct s g : cur s = Some g ->
+  all_frames (flush_cache s) = all_frames s ++ cache_frames s /\ cache (flush_cache s) = None /\
+  dropped (flush_cache s) = dropped s.
+Proof.
+  intros Hc. unfold flush_cache, cache_frames. destruct (cache s) as [a|] eqn:Ha.
+  - destruct (flush_frame_acct (cache_frame a) s g Hc) as (A & B & C).
+    unfold all_frames, curl in *. cbn [set_cache closed cur cache dropped]. repeat split; assumption.
+  - rewrite app_nil_r. repeat split; [exact Ha].
+Qed.
+
+Lemma reap_acct c start a s g : cur s = Some g -> MIN_TICKS <= s_dur g ->
+  all_frames (reap c start a s) = all_frames s ++ cache_frames s /\ cache (reap c start a s) = None /\
+  dropped (reap c start a s) = dropped s.
+Proof.
+  intros Hc Hd.
+  pose proof (reap_spec c start a s g Hc) as R. cbn zeta in R.
+  destruct R as (s1 & g' & CA & _ & R1 & _ & _ & _ & _ & R3 & R4 & _ & _ & R5 & R6 & _).
+  destruct CA as [Hx E1 E2 E3 E4 E5 | Hx E1 E2 E3 E4 E5]; [lia|].
+  unfold all_frames, curl, cache_frames. rewrite R1, R5, R6, E3, E4, Hc. cbn [flat_map].
+  rewrite flat_map_app. cbn [flat_map]. rewrite !app_nil_r.
+  repeat split; [|exact R4].
+  destruct (cache s); destruct R3 as [-> _]; rewrite ?app_nil_r; reflexivity.
+Qed.
+
+Lemma write_frame_acct c f s g : 1 <= c_frag c -> cur s = Some g -> dropped s = [] ->
+  let s' := write_frame c f s in
+  dropped s' = [] /\
+  vids (all_frames s') = vids (all_frames s) ++ (if video_in f then [f] else []) /\
+  auds (all_frames s') ++ cache_src s' = (auds (all_frames s) ++ cache_src s) ++ (if audio_in f then [f] else []).
+Proof.
+  intros HF Hg Hd. cbn zeta. unfold write_frame, video_in, audio_in, nonempty. rewrite Hg.
+  destruct (f_pay f) as [|p0 pay] eqn:Hp.
+  { rewrite !andb_false_r, !app_nil_r. repeat split; [exact Hd]. }
+  rewrite !andb_true_r.
+  destruct (is_audio (f_kind f)) eqn:Ha; cbn [negb].
+  - (* audio *)
+    assert (K : forall s1 a', cur s1 = Some g -> dropped s1 = [] -> all_frames s1 = all_frames s ->
+              cache s1 = Some a' -> a_src a' = cache_src s ++ [f] ->
+              let s' := if AAC_DELAY <? f_pts f - a_pts a' then flush_cache s1
+                        else if abs_overflow c s1 then reap c (f_pts f) true s1 else s1 in
+              dropped s' = [] /\ vids (all_frames s') = vids (all_frames s) ++ [] /\
+              auds (all_frames s') ++ cache_src s' = (auds (all_frames s) ++ cache_src s) ++ [f]).
+    { intros s1 a' C1 D1 A1 Ca1 Sa1. cbn zeta.
+      assert (CS : cache_src s1 = cache_src s ++ [f]) by (unfold cache_src at 1; rewrite Ca1; exact Sa1).
+      destruct (AAC_DELAY <? f_pts f - a_pts a').
+      - destruct (flush_cache_acct s1 g C1) as (A & B & C).
+        rewrite C, A, vids_app, auds_app, vids_cache_frames, auds_cache_frames, A1, CS.
+        rewrite (cache_src_none _ B). rewrite !app_nil_r, app_assoc. repeat split; [exact D1].
+      - destruct (abs_overflow c s1) eqn:Ho.
+        + unfold abs_overflow in Ho. rewrite C1 in Ho.
+          destruct (reap_acct c (f_pts f) true s1 g C1 ltac:(unfold MIN_TICKS, TICKS in *; lia)) as (A & B & C).
+          rewrite C, A, vids_app, auds_app, vids_cache_frames, auds_cache_frames, A1, CS.
+          rewrite (cache_src_none _ B). rewrite !app_nil_r, app_assoc. repeat split; [exact D1].
+        + rewrite A1, CS, app_nil_r, app_assoc. repeat split; [exact D1]. }
+    destruct (cache s) as [a0|] eqn:Hca.
+    + cbn zeta. match goal with |- context [set_cache (Some ?a) ?x] => specialize (K (set_cache (Some a) x) a) end.
+      cbn [a_pts] in K. apply K; try reflexivity; try assumption.
+      cbn. unfold cache_src. rewrite Hca. reflexivity.
+    + destruct (jitter_start c (f_pts f) s) as [p s0] eqn:Hjs.
+      destruct (jitter_start_snd c (f_pts f) s) as (b & n & E). rewrite Hjs in E. cbn in E. subst s0.
+      cbn zeta. match goal with |- context [set_cache (Some ?a) ?x] => specialize (K (set_cache (Some a) x) a) end.
+      cbn [a_pts] in K. apply K; try reflexivity; try assumption.
+      cbn. unfold cache_src. rewrite Hca. reflexivity.
+  - (* video *)
+    assert (V1 : vids [video_frame c f] = [f]) by reflexivity.
+    assert (V2 : auds [video_frame c f] = []) by reflexivity.
+    destruct (is_key (f_kind f) && overflow c s) eqn:Hk.
+    + apply andb_true_iff in Hk as [_ Ho]. unfold overflow, cur_dur in Ho. rewrite Hg in Ho.
+      destruct (reap_acct c (f_pts f) false s g Hg ltac:(unfold MIN_TICKS, TICKS in *; lia)) as (A & B & C).
+      pose proof (reap_spec c (f_pts f) false s g Hg) as R. cbn zeta in R. destruct R as (_ & g' & _ & _ & R1 & _).
+      destruct (flush_frame_acct (video_frame c f) _ g' R1) as (A' & B' & C').
+      rewrite C', C, A', A, !vids_app, !auds_app, vids_cache_frames, auds_cache_frames, V1, V2.
+      rewrite (cache_src_eq _ _ B'), (cache_src_none _ B). rewrite !app_nil_r. repeat split; [exact Hd].
+    + destruct (flush_frame_acct (video_frame c f) s g Hg) as (A' & B' & C').
+      rewrite C', A', !vids_app, !auds_app, V1, V2. rewrite (cache_src_eq _ _ B'). rewrite !app_nil_r.
+      repeat split; [exact Hd].
+Qed.
+
+Lemma feed_acct c fs : forall s, 1 <= c_frag c -> cur s <> None -> dropped s = [] ->
+  let s' := feed c fs s in
+  dropped s' = [] /\
+  vids (all_frames s') = vids (all_frames s) ++ filter video_in fs /\
+  auds (all_frames s') ++ cache_src s' = (auds (all_frames s) ++ cache_src s) ++ filter audio_in fs.
+Proof.
+  induction fs as [|f fs IH]; intros s HF Hc Hd; cbn [feed filter].
+  - rewrite !app_nil_r. repeat split; [exact Hd].
+  - destruct (cur s) as [g|] eqn:Hg; [|congruence].
+    destruct (write_frame_acct c f s g HF Hg Hd) as (A & B & C).
+    specialize (IH (write_frame c f s) HF ltac:(apply cur_open_write_frame; congruence) A).
+    cbn zeta in IH. destruct IH as (A' & B' & C'). rewrite B', C', B, C.
+    repeat split; [exact A' | |].
+    + rewrite <- app_assoc. f_equal. destruct (video_in f); reflexivity.
+    + rewrite <- !app_assoc. do 2 f_equal. destruct (audio_in f); reflexivity.
+Qed.
+
+Theorem segments_partition c fs : 1 <= c_frag c ->
+  let s := feed c fs (init c) in
+  dropped s = [] /\
+  vids (all_frames s) = filter video_in fs /\
+  auds (all_frames s) ++ cache_src s = filter audio_in fs.
+Proof.
+  intros HF.
+  pose proof (feed_acct c fs (init c) HF (cur_open_init c)) as K.
+  assert (D : dropped (init c) = []).
+  { unfold init. pose proof (segment_open_spec c 0 true false init_free eq_refl) as SO. cbn zeta in SO.
+    destruct SO as (b & _ & _ & _ & _ & _ & _ & _ & O8 & _). exact O8. }
+  assert (A0 : all_frames (init c) = [] /\ cache_src (init c) = []).
+  { unfold init, all_frames, curl, cache_src. pose proof (segment_open_spec c 0 true false init_free eq_refl) as SO. cbn zeta in SO.
+    destruct SO as (b & O1 & _ & O3 & _ & _ & _ & O7 & _). rewrite O1, O3, O7. split; reflexivity. }
+  destruct A0 as [A0 A1]. specialize (K D). cbn zeta in K. rewrite A0, A1 in K. exact K.
+Qed.
+
+(* ================================================================== reachable states *)
+Lemma Inv_feed c fs : forall s, forallb frame_wf fs = true -> Inv c s -> Inv c (feed c fs s).
+Proof.
+  induction fs as [|f fs IH]; intros s Hw HI; [exact HI|].
+  cbn [forallb] in Hw. apply andb_true_iff in Hw as [H1 H2]. cbn [feed]. apply IH; [exact H2|].
+  apply Inv_write_frame; assumption.
+Qed.
+
+Fixpoint steps (c : cfg) (s : st) (ops : list op) : st :=
+  match ops with [] => s | o :: t => steps c (step_st c s o) t end.
+
+Lemma Inv_steps c ops : forall s, forallb op_wf ops = true -> Inv c s -> Inv c (steps c s ops).
+Proof.
+  induction ops as [|o ops IH]; intros s Hw HI; [exact HI|].
+  cbn [forallb] in Hw. apply andb_true_iff in Hw as [H1 H2]. cbn [steps]. apply IH; [exact H2|].
+  apply Inv_step_st; assumption.
+Qed.
+
+Lemma entries_ok_all c tok target live l : forall n e, entries_ok c tok n target live l = true -> In e l ->
+  e_ms e <= target * 1000 /\ e_tok e = tok.
+Proof.
+  induction l as [|x l IH]; intros n e V He; [destruct He|].
+  cbn [entries_ok] in V. repeat (apply andb_true_iff in V as [V ?]).
+  destruct He as [<-|He]; [|eapply IH; eauto].
+  split; [lia|]. apply bytes_eqb_eq. assumption.
+Qed.
+
+(* the playlist window, for every state reachable by frames / fetches / playlist calls / Close *)
+Theorem playlist_window c ops tok :
+  forallb op_wf ops = true ->
+  let s := steps c (init c) ops in
+  (length (pl s) <= 3)%nat /\
+  (exists older, closed s = older ++ pl s) /\                          (* the most recent complete segments *)
+  (cur s <> None -> (3 <= length (closed s))%nat -> m3u8 c tok s <> None) /\  (* served once three exist *)
+  forall v, m3u8 c tok s = Some v ->
+    length (v_entries v) = 3%nat /\
+    v_entries v = map (entry_of c tok) (pl s) /\
+    map s_seq (pl s) = [v_mseq v; v_mseq v + 1; v_mseq v + 2] /\
+    view_ok c tok (live_seqs s) v = true /\
+    (forall e, In e (v_entries v) -> e_ms e <= v_target v * 1000 /\ e_tok e = tok).
+Proof.
+  intros Hw s. pose proof (Inv_steps c ops (init c) Hw (Inv_init c)) as HI. fold s in HI.
+  destruct HI as [I1 I2 I3 I3h].
+  split; [apply (i_len _ I1)|]. split; [apply (i_suffix _ I1)|]. split.
+  - intros Hc H3. pose proof (i_recent _ I1 Hc) as L. unfold m3u8.
+    destruct (pl s) as [|g0 rest] eqn:Hp; [cbn [length] in L; lia|].
+    destruct (length (g0 :: rest) <? WINDOW)%nat eqn:E; [unfold WINDOW in E; lia | discriminate].
+  - intros v Hm.
+    destruct (view_ok_model c tok s v I1 (Inv2_durs_ok _ I2) Hm) as (V & E & L & M).
+    split; [rewrite E, map_length; exact L|]. split; [exact E|]. split; [|split; [exact V|]].
+    + pose proof (i_cons _ I1) as C.
+      destruct (pl s) as [|g0 [|g1 [|g2 [|g3 r]]]] eqn:Hp; try (cbn in L; lia).
+      specialize (M g0 eq_refl). cbn [map consecutive] in C |- *.
+      apply andb_true_iff in C as [C0 C]. apply andb_true_iff in C as [C1 C]. apply andb_true_iff in C as [C2 _].
+      apply Z.eqb_eq in C0, C1, C2. rewrite M.
+      assert (E1 : s_seq g1 = s_seq g0 + 1) by lia. assert (E2 : s_seq g2 = s_seq g0 + 2) by lia.
+      rewrite E1, E2. reflexivity.
+    + intros e He. unfold view_ok in V. apply andb_true_iff in V as [_ V]. eapply entries_ok_all; eauto.
+Qed.
+
+Theorem storage_bounded c ops :
+  forallb op_wf ops = true ->
+  let s := steps c (init c) ops in
+  (length (pl s) <= 3)%nat /\ (length (file_seqs c s) <= 4)%nat /\
+  (forall seq, fetch c seq s <> None -> In seq (live_seqs s)).
+Proof.
+  intros Hw s. pose proof (Inv_steps c ops (init c) Hw (Inv_init c)) as HI. fold s in HI.
+  pose proof (i_len _ (inv1 _ _ HI)) as L. split; [exact L|]. split.
+  - unfold file_seqs. destruct (c_mem c); [cbn; lia|].
+    rewrite sort_z_length, app_length. unfold live_seqs. rewrite map_length. destruct (cur s); cbn [length]; lia.
+  - intros seq Hf. unfold fetch in Hf. destruct (find_seg seq (pl s)) as [g|] eqn:E; [|congruence].
+    unfold live_seqs. clear Hf L. induction (pl s) as [|x l IH]; [discriminate|].
+    cbn [find_seg] in E. destruct (s_seq x =? seq) eqn:Ex; [left; cbn; lia | right; apply IH; exact E].
+Qed.
+
+(* short segments: with a fragment of at least one second nothing is ever discarded *)
+Theorem short_segment_unreachable c fs : 1 <= c_frag c -> dropped (feed c fs (init c)) = [].
+Proof. intros H. apply (segments_partition c fs H). Qed.
+
+(* every listed segment not opened by the audio-driven reap (and not number 1) starts its video with a key frame
+   whose elementary stream begins with AUD, SPS, PPS and a start code *)
+Theorem segment_starts_with_key c ops g :
+  forallb op_wf ops = true ->
+  let s := steps c (init c) ops in
+  In g (pl s) -> s_seq g <> 1 -> s_aud g = false ->
+  exists w, first_video (s_frames g) = Some w /\ w_key w = true /\ is_prefix (key_header c) (w_es w) = true.
+Proof.
+  intros Hw s Hin Hs Ha. pose proof (Inv_steps c ops (init c) Hw (Inv_init c)) as HI. fold s in HI.
+  destruct HI as [I1 I2 I3 I3h].
+  assert (Hh : s_hdr g = false).
+  { destruct (s_hdr g) eqn:E; [|reflexivity]. exfalso. apply Hs. apply I3h; [apply in_or_app; left; exact Hin | exact E]. }
+  pose proof (I3 g ltac:(apply in_or_app; left; exact Hin) Hh Ha) as K.
+  unfold key_started in K. destruct (first_video (s_frames g)) as [w|]; [|discriminate].
+  apply andb_true_iff in K as [K1 K2]. exists w. repeat split; assumption.
+Qed.
+
+(* a video-only stream never takes the audio path *)
+Lemma no_audio_write_frame c f s : is_audio (f_kind f) = false ->
+  (forall g, In g (pl s ++ curl s) -> s_aud g = false) ->
+  (forall g, In g (pl (write_frame c f s) ++ curl (write_frame c f s)) -> s_aud g = false).
+Proof.
+  intros Ha H. unfold write_frame. destruct (cur s) as [g0|] eqn:Hg; [|exact H].
+  destruct (f_pay f); [exact H|]. rewrite Ha.
+  assert (FF : forall s1, (forall g, In g (pl s1 ++ curl s1) -> s_aud g = false) ->
+               forall g, In g (pl (flush_frame (video_frame c f) s1) ++ curl (flush_frame (video_frame c f) s1)) -> s_aud g = false).
+  { intros s1 H1 g Hin. unfold flush_frame in Hin. destruct (cur s1) as [g1|] eqn:Hg1; [|apply H1; exact Hin].
+    unfold curl in Hin, H1. cbn [set_cur pl cur] in Hin. rewrite Hg1 in H1.
+    apply in_app_or in Hin. destruct Hin as [Hin|[<-|[]]]; [apply H1, in_or_app; left; exact Hin|].
+    cbn. apply H1, in_or_app. right. left. reflexivity. }
+  destruct (is_key (f_kind f) && overflow c s); [|apply FF, H].
+  apply FF. intros g Hin.
+  pose proof (reap_spec c (f_pts f) false s g0 Hg) as R. cbn zeta in R.
+  destruct R as (s1 & g' & CA & _ & R1 & _ & _ & _ & R2 & _ & _ & _ & R5 & _).
+  unfold curl in Hin. rewrite R1, R5 in Hin. apply in_app_or in Hin. destruct Hin as [Hin|[<-|[]]]; [|exact R2].
+  destruct (closed_as_pl_in _ _ _ _ CA Hin) as [Hx| ->]; apply H, in_or_app; [left; exact Hx|].
+  right. unfold curl. rewrite Hg. left. reflexivity.
+Qed.
+
+Theorem video_only_never_audio_reap c fs :
+  forallb (fun f => negb (is_audio (f_kind f))) fs = true ->
+  forall g, In g (pl (feed c fs (init c))) -> s_aud g = false.
+Proof.
+  intros Hv.
+  assert (K : forall s, (forall g, In g (pl s ++ curl s) -> s_aud g = false) ->
+              forall g, In g (pl (feed c fs s) ++ curl (feed c fs s)) -> s_aud g = false).
+  { induction fs as [|f fs IH]; intros s H; [exact H|].
+    cbn [forallb] in Hv. apply andb_true_iff in Hv as [H1 H2]. cbn [feed]. apply IH; [exact H2|].
+    apply no_audio_write_frame; [destruct (is_audio (f_kind f)); [discriminate|reflexivity] | exact H]. }
+  intros g Hin. apply (K (init c)); [|apply in_or_app; left; exact Hin].
+  unfold init. pose proof (segment_open_spec c 0 true false init_free eq_refl) as SO. cbn zeta in SO.
+  destruct SO as (b & O1 & _ & _ & _ & _ & O6 & _). intros x Hx. unfold curl in Hx. rewrite O1, O6 in Hx.
+  destruct Hx as [<-|[]]. reflexivity.
+Qed.
+
+(* ================================================================== readers *)
+(* a reader handed out by the repaired memory store, or by the disk store, yields the transport stream of
+   the frames of that sequence number in every later state, whatever happens to the window *)
+Theorem segment_bytes_stable (tsw : list wframe -> bytes) c s seq r :
+  c_copy c = true \/ c_mem c = false ->
+  fetch c seq s = Some r ->
+  exists g, find_seg seq (pl s) = Some g /\ forall s', read_bytes tsw r s' = tsw (s_frames g).
+Proof.
+  intros Hc Hf. unfold fetch in Hf. destruct (find_seg seq (pl s)) as [g|]; [|discriminate].
+  exists g. split; [reflexivity|]. intros s'.
+  assert (E : (c_mem c && negb (c_copy c)) = false) by (destruct Hc as [-> | ->]; [apply andb_false_r | reflexivity]).
+  rewrite E in Hf. injection Hf as <-. reflexivity.
+Qed.
+
+(* D19, the code before the repair: a view of the pooled buffer.  Fragment 1 s, one key frame per second;
+   (a segment is cut at every second key frame); fetch number 1 once three segments are listed, let the
+   fourth segment close (number 1 leaves the window, its buffer goes back to the pool) and the fifth
+   open (it takes that buffer), read: the bytes are those of segment 5.  [toy_tsw] stands for the TS writer: any function under which the
+   two frame lists differ inside the common length shows the same. *)
+Definition toy_tsw (fs : list wframe) : bytes := flat_map w_es fs.
+Definition d19_cfg : cfg :=
+  {| c_frag := 1; c_rate := 44100; c_mem := true; c_copy := false; c_path := [47; 97]; c_sps := [103]; c_pps := [104];
+     c_pick := fun _ => O |}.
+Definition d19_key (i : Z) : frame := {| f_kind := KK; f_pts := i * 90000; f_dts := i * 90000; f_pay := [101; i] |}.
+Definition d19_before : st := feed d19_cfg (map d19_key [0; 1; 2; 3; 4; 5; 6]) (init d19_cfg).
+Definition d19_after : st := feed d19_cfg (map d19_key [7; 8]) d19_before.
+
+Theorem segment_alias_refuted :
+  exists r g, fetch d19_cfg 1 d19_before = Some r /\ find_seg 1 (pl d19_before) = Some g /\
+    read_bytes toy_tsw r d19_before = toy_tsw (s_frames g) /\
+    read_bytes toy_tsw r d19_after <> toy_tsw (s_frames g).
+Proof.
+  eexists _, _. split; [vm_compute; reflexivity|]. split; [vm_compute; reflexivity|].
+  split; [vm_compute; reflexivity|]. vm_compute. discriminate.
+Qed.
+
+(* D35: fragment 1 s, one key frame, then 0.2 s P-frames and audio: the audio path reaps at 2 s and the second
+   segment starts its video with a P-frame *)
+Definition d35_cfg : cfg :=
+  {| c_frag := 1; c_rate := 44100; c_mem := true; c_copy := true; c_path := [47; 97]; c_sps := [103]; c_pps := [104];
+     c_pick := fun _ => O |}.
+Definition d35_gop (i : Z) : list frame :=
+  [ {| f_kind := KV; f_pts := i * 18000; f_dts := i * 18000; f_pay := [65; i] |};
+    {| f_kind := KA; f_pts := i * 18000 + 100; f_dts := i * 18000 + 100; f_pay := [33; i] |} ].
+Definition d35_frames : list frame :=
+  {| f_kind := KK; f_pts := 0; f_dts := 0; f_pay := [101; 1] |} ::
+  flat_map d35_gop [1; 2; 3; 4; 5; 6; 7; 8; 9; 10; 11; 12; 13; 14; 15] ++
+  [ {| f_kind := KK; f_pts := 288000; f_dts := 288000; f_pay := [101; 2] |};
+    {| f_kind := KV; f_pts := 378000; f_dts := 378000; f_pay := [65; 99] |};
+    {| f_kind := KK; f_pts := 396000; f_dts := 396000; f_pay := [101; 3] |} ].
+
+Theorem long_gop_segment_refuted :
+  forallb frame_wf d35_frames = true /\
+  exists g, In g (pl (feed d35_cfg d35_frames (init d35_cfg))) /\ s_seq g = 2 /\ s_aud g = true /\
+            starts_with_key d35_cfg (s_frames g) = false.
+Proof.
+  split; [vm_compute; reflexivity|].
+  eexists. split; [vm_compute; right; left; reflexivity|]. vm_compute. repeat split; reflexivity.
+Qed.
